@@ -225,6 +225,16 @@ class FieldMappingTransformationBase(DetectionItemTransformation):
             for alias in rule.aliases:
                 aliases.add(alias.alias)
                 for rule_reference, field_name in alias.mapping.items():
+                    # The field belongs to the referred rule: it is renamed if the rule conditions
+                    # of this item hold for that rule, as when the rule itself was processed (the
+                    # correlation rule matches as soon as one of its rules does).
+                    referred_rule = getattr(rule_reference, "rule", None)
+                    if (
+                        referred_rule is not None
+                        and self.processing_item is not None
+                        and not self.processing_item.match_rule_conditions(referred_rule)
+                    ):
+                        continue
                     mapped_field_name = self._apply_field_name(field_name)
                     if len(mapped_field_name) > 1:
                         raise SigmaConfigurationError(
